@@ -189,9 +189,44 @@ impl Connected for Pipe {
 }
 
 // ------------------------------------------------------------------ world + scripted connector
+/// how the connector enforces the tower Service protocol (`call` only after a Ready poll_ready)
+#[derive(Clone, Copy, Debug, PartialEq, Eq)]
+enum Mode {
+    /// a `call` without a preceding Ready poll_ready is recorded
+    Record,
+    /// ... and panics, like tower's own middleware does
+    Panic,
+    /// the scripted connector wrapped in a real `tower::limit::ConcurrencyLimit` (max 1), which
+    /// panics "poll_ready must be called first" on such a call
+    Limit,
+}
+impl Mode {
+    fn name(&self) -> &'static str {
+        match self {
+            Mode::Record => "record",
+            Mode::Panic => "panic",
+            Mode::Limit => "concurrency_limit",
+        }
+    }
+    fn from_name(s: &str) -> Mode {
+        match s {
+            "panic" => Mode::Panic,
+            "concurrency_limit" => Mode::Limit,
+            _ => Mode::Record,
+        }
+    }
+}
 struct WorldSt {
     net: Net,
     lat: u32,
+    /// Pending answers of the connector's poll_ready per cycle, and how many are left in this one
+    prl: u32,
+    pr_left: u32,
+    /// poll_ready has returned Ready since the last call
+    ready: bool,
+    /// calls without a Ready poll_ready since the previous call
+    misuse: u64,
+    panic_on_misuse: bool,
     attempts: u64,
     current: Option<Arc<Mutex<PipeSt>>>,
     tx: mpsc::UnboundedSender<Result<Pipe, std::io::Error>>,
@@ -205,13 +240,29 @@ impl tower_service::Service<Uri> for ScriptedConnector {
     type Response = TokioIo<DuplexStream>;
     type Error = std::io::Error;
     type Future = Pin<Box<dyn Future<Output = Result<Self::Response, Self::Error>> + Send>>;
-    fn poll_ready(&mut self, _cx: &mut Context<'_>) -> Poll<Result<(), Self::Error>> {
+    fn poll_ready(&mut self, cx: &mut Context<'_>) -> Poll<Result<(), Self::Error>> {
+        let mut s = self.0 .0.lock().unwrap();
+        if s.pr_left > 0 {
+            s.pr_left -= 1;
+            cx.waker().wake_by_ref();
+            return Poll::Pending;
+        }
+        s.ready = true;
         Poll::Ready(Ok(()))
     }
     fn call(&mut self, _uri: Uri) -> Self::Future {
         let w = self.0.clone();
         let (k, net, lat) = {
             let mut s = w.0.lock().unwrap();
+            if !s.ready {
+                s.misuse += 1;
+                if s.panic_on_misuse {
+                    drop(s);
+                    panic!("scripted connector: poll_ready must be called first");
+                }
+            }
+            s.ready = false;
+            s.pr_left = s.prl;
             s.attempts += 1;
             (s.attempts, s.net, s.lat)
         };
@@ -293,6 +344,7 @@ struct Obs {
     eager: Option<Outcome>,
     calls: Vec<Outcome>,
     attempts: u64,
+    misuse: u64,
     panics: usize,
 }
 
@@ -315,10 +367,33 @@ async fn one_call(mut client: HealthClient<tonic::transport::Channel>) -> Outcom
     }
 }
 
-async fn run_case(lazy: bool, lat: u32, net0: Net, hist: &[Step]) -> Obs {
+async fn build_channel<C>(ep: Endpoint, conn: C, lazy: bool) -> Result<tonic::transport::Channel, tonic::transport::Error>
+where
+    C: tower_service::Service<Uri, Response = TokioIo<DuplexStream>, Error = std::io::Error> + Send + 'static,
+    C::Future: Send,
+{
+    if lazy {
+        Ok(ep.connect_with_connector_lazy(conn))
+    } else {
+        ep.connect_with_connector(conn).await
+    }
+}
+
+async fn run_case(lazy: bool, lat: u32, prl: u32, mode: Mode, net0: Net, hist: &[Step]) -> Obs {
     let p0 = PANICS.load(Ordering::SeqCst);
     let (tx, rx) = mpsc::unbounded_channel();
-    let world = World(Arc::new(Mutex::new(WorldSt { net: net0, lat, attempts: 0, current: None, tx })));
+    let world = World(Arc::new(Mutex::new(WorldSt {
+        net: net0,
+        lat,
+        prl,
+        pr_left: prl,
+        ready: false,
+        misuse: 0,
+        panic_on_misuse: mode == Mode::Panic,
+        attempts: 0,
+        current: None,
+        tx,
+    })));
     let (_rep, health) = tonic_health::server::health_reporter();
     let server = tokio::spawn(
         Server::builder()
@@ -327,20 +402,33 @@ async fn run_case(lazy: bool, lat: u32, net0: Net, hist: &[Step]) -> Obs {
     );
     let ep = Endpoint::from_static("http://scripted.invalid");
     let conn = ScriptedConnector(world.clone());
-    let mut obs = Obs { eager: None, calls: vec![], attempts: 0, panics: 0 };
-    let ch = if lazy {
-        Some(ep.connect_with_connector_lazy(conn))
+    let mut obs = Obs { eager: None, calls: vec![], attempts: 0, misuse: 0, panics: 0 };
+    // built in its own task: a panic of a strict connector inside an eager connect() is an
+    // observation (counted by the panic hook), not the end of the harness
+    let task = if mode == Mode::Limit {
+        tokio::spawn(build_channel(ep, tower::limit::ConcurrencyLimit::new(conn, 1), lazy))
     } else {
-        match tokio::time::timeout(Duration::from_secs(3600), ep.connect_with_connector(conn)).await {
+        tokio::spawn(build_channel(ep, conn, lazy))
+    };
+    let built = tokio::time::timeout(Duration::from_secs(3600), task).await;
+    let ch = if lazy {
+        built.ok().and_then(|r| r.ok()).and_then(|r| r.ok())
+    } else {
+        match built {
             Err(_) => {
                 obs.eager = Some(Outcome::Hang);
                 None
             }
-            Ok(Ok(ch)) => {
+            Ok(Err(_)) => {
+                obs.eager = Some(Outcome::Err(998, 0, 0, "eager connect() panicked".into()));
+                None
+            }
+            Ok(Ok(r)) => match r {
+            Ok(ch) => {
                 obs.eager = Some(Outcome::Ok);
                 Some(ch)
             }
-            Ok(Err(e)) => {
+            Err(e) => {
                 // connect() returns a transport::Error, not a Status; its class is what
                 // Status::from_error (used by every generated client) makes of it
                 let text = format!("{} / {:?}", e, e);
@@ -349,6 +437,7 @@ async fn run_case(lazy: bool, lat: u32, net0: Net, hist: &[Step]) -> Obs {
                 obs.eager = Some(Outcome::Err(st.code() as i32 as u32, k, r, st.message().to_string()));
                 None
             }
+            },
         }
     };
     if let Some(ch) = ch {
@@ -379,18 +468,19 @@ async fn run_case(lazy: bool, lat: u32, net0: Net, hist: &[Step]) -> Obs {
         }
     }
     obs.attempts = world.0.lock().unwrap().attempts;
+    obs.misuse = world.0.lock().unwrap().misuse;
     server.abort();
     obs.panics = PANICS.load(Ordering::SeqCst) - p0;
     obs
 }
 
-fn run_blocking(lazy: bool, lat: u32, net0: Net, hist: &[Step]) -> Obs {
+fn run_blocking(lazy: bool, lat: u32, prl: u32, mode: Mode, net0: Net, hist: &[Step]) -> Obs {
     let rt = tokio::runtime::Builder::new_current_thread()
         .enable_time()
         .start_paused(true)
         .build()
         .unwrap();
-    let o = rt.block_on(run_case(lazy, lat, net0, hist));
+    let o = rt.block_on(run_case(lazy, lat, prl, mode, net0, hist));
     drop(rt);
     o
 }
@@ -411,6 +501,12 @@ fn oracle(lazy: bool, net0: Net, hist: &[Step], o: &Obs) -> Option<String> {
         Doomed,
         /// dropped by the peer off a quiescent point: the runtime decides who runs first
         MaybeLive,
+    }
+    if o.misuse > 0 {
+        return Some(format!(
+            "connector called without poll_ready: {} call(s) of the connector were not preceded by a Ready poll_ready (tower Service contract)",
+            o.misuse
+        ));
     }
     if o.panics > 0 {
         return Some(format!("{} panic(s) inside the channel's tasks", o.panics));
@@ -573,11 +669,21 @@ fn obs_tr(o: &Obs) -> Tr {
         Tr::opt(o.eager.as_ref().map(|e| e.tr())),
         Tr::L(o.calls.iter().map(|c| c.tr()).collect()),
         Tr::n(o.attempts),
+        Tr::n(o.misuse),
     ])
 }
 
 fn push_case(out: &mut Out, kind: &str, lazy: bool, lat: u32, net0: Net, hist: &[Step]) {
-    let o = run_blocking(lazy, lat, net0, hist);
+    // the connector's protocol parameters rotate with the case number: Pending answers of its
+    // poll_ready per cycle 0..2, enforcement mode record / panic / real ConcurrencyLimit
+    let c = out.count();
+    let mode = [Mode::Record, Mode::Panic, Mode::Limit][(c % 3) as usize];
+    let prl = ((c / 3) % 3) as u32;
+    push_case_with(out, kind, lazy, lat, prl, mode, net0, hist)
+}
+#[allow(clippy::too_many_arguments)]
+fn push_case_with(out: &mut Out, kind: &str, lazy: bool, lat: u32, prl: u32, mode: Mode, net0: Net, hist: &[Step]) {
+    let o = run_blocking(lazy, lat, prl, mode, net0, hist);
     // how the race of a non-quiescent drop was resolved by the runtime is a schedule parameter of
     // the model, read off the implementation: the call that follows at once was CANCELLED by hyper
     // iff the client's connection task had not run yet
@@ -600,9 +706,10 @@ fn push_case(out: &mut Out, kind: &str, lazy: bool, lat: u32, net0: Net, hist: &
         steps_coq.push(c);
     }
     let model = format!(
-        "obs_run {} {} {} {}",
+        "obs_run {} {} {} {} {}",
         coq_bool(lazy),
         lat,
+        prl,
         net0.coq(),
         coq_list(&steps_coq, |s| s.clone())
     );
@@ -612,6 +719,8 @@ fn push_case(out: &mut Out, kind: &str, lazy: bool, lat: u32, net0: Net, hist: &
     out.hist("largest_batch", hist.iter().map(|s| if let Step::Calls(k) = s { *k } else { 0 }).max().unwrap_or(0));
     out.hist("mode", if lazy { "lazy" } else { "eager" });
     out.hist("latency", lat);
+    out.hist("connector_poll_ready_pendings", prl);
+    out.hist("connector_mode", mode.name());
     out.hist("attempts", o.attempts.min(12));
     out.hist(
         "outcomes",
@@ -629,8 +738,8 @@ fn push_case(out: &mut Out, kind: &str, lazy: bool, lat: u32, net0: Net, hist: &
     let orc = oracle(lazy, net0, hist, &o);
     out.push(Case {
         kind: kind.to_string(),
-        input: json!({"lazy": lazy, "lat": lat, "net0": net0.json(), "history": hist.iter().map(|s| s.json()).collect::<Vec<_>>(),
-                      "impl": {"eager": o.eager.as_ref().map(|e| e.json()), "calls": o.calls.iter().map(|c| c.json()).collect::<Vec<_>>(), "attempts": o.attempts}}),
+        input: json!({"lazy": lazy, "lat": lat, "prl": prl, "mode": mode.name(), "net0": net0.json(), "history": hist.iter().map(|s| s.json()).collect::<Vec<_>>(),
+                      "impl": {"eager": o.eager.as_ref().map(|e| e.json()), "calls": o.calls.iter().map(|c| c.json()).collect::<Vec<_>>(), "attempts": o.attempts, "misuse": o.misuse}}),
         model,
         impl_obs: obs_tr(&o),
         oracle: orc,
@@ -689,11 +798,13 @@ fn main() {
         let v: Value = serde_json::from_str(&std::fs::read_to_string(f).unwrap()).unwrap();
         let i = &v["input"];
         let hist: Vec<Step> = i["history"].as_array().unwrap().iter().map(Step::from_json).collect();
-        push_case(
+        push_case_with(
             &mut out,
             v["kind"].as_str().unwrap_or("replay"),
             i["lazy"].as_bool().unwrap(),
             i["lat"].as_u64().unwrap() as u32,
+            i["prl"].as_u64().unwrap_or(0) as u32,
+            Mode::from_name(i["mode"].as_str().unwrap_or("record")),
             Net::from_json(&i["net0"]),
             &hist,
         );
@@ -721,6 +832,14 @@ fn main() {
     ];
     for (lazy, lat, n0, h) in &corpus {
         push_case(&mut out, "corpus.history", *lazy, *lat, *n0, h);
+    }
+    // the connector's protocol: connect, call, peer drops, call - in every mode and with Pending answers
+    for mode in [Mode::Record, Mode::Panic, Mode::Limit] {
+        for prl in [0, 2] {
+            for lazy in [true, false] {
+                push_case_with(&mut out, "corpus.protocol", lazy, 1, prl, mode, Net::Up, &[CALL, Drop, CALL, Drop, fail(3), CALL, succeed, Calls(2)]);
+            }
+        }
     }
     // queued calls (audit M19)
     let conc: Vec<(bool, u32, Net, Vec<Step>)> = vec![
@@ -861,25 +980,23 @@ fn main() {
 
     out.finish(
         IMPORTS,
-        "script.exhaustive: ALL scripts over {connect fails, connect succeeds, connection dropped} up to length 6 (thorough 8) x lazy/eager, a unary call at the quiescent point after every event (and optionally before the first), initial reachability and connector latency (0..2 Pending polls) varied; concurrent.k: ALL such scripts up to length 4 (thorough 6) with 2..4 calls issued TOGETHER (queued in the tower Buffer) after every event; history.random: random histories with calls and batches of 0..4 at arbitrary positions; script.handshake / history.random_handshake: the alphabet widened by {transport connects but the peer closes at once (handshake fails; strictly UNAVAILABLE, fixed finding F-C14a), transport connects but the peer is not HTTP/2 (established connection dies under the request, CANCELLED or UNAVAILABLE accepted as for racy drops)}; corpus.racy: calls issued before the client noticed the drop (outside the property's quantifier, behaviour recorded and modelled). Real Endpoint::connect_with_connector[_lazy] + Buffer worker + Reconnect + hyper h2 client against a real tonic Server over tokio duplex pipes, paused clock. Non-trivial = at least one call and two steps. Distinct = distinct (kind, model expression).",
+        "script.exhaustive: ALL scripts over {connect fails, connect succeeds, connection dropped} up to length 6 (thorough 8) x lazy/eager, a unary call at the quiescent point after every event (and optionally before the first), initial reachability and connector latency (0..2 Pending polls) varied; concurrent.k: ALL such scripts up to length 4 (thorough 6) with 2..4 calls issued TOGETHER (queued in the tower Buffer) after every event; history.random: random histories with calls and batches of 0..4 at arbitrary positions; script.handshake / history.random_handshake: the alphabet widened by {transport connects but the peer closes at once (handshake fails; strictly UNAVAILABLE, fixed finding F-C14a), transport connects but the peer is not HTTP/2 (established connection dies under the request, CANCELLED or UNAVAILABLE accepted as for racy drops)}; corpus.racy: calls issued before the client noticed the drop (outside the property's quantifier, behaviour recorded and modelled). The scripted connector enforces the tower Service protocol (its poll_ready answers Pending 0..2 times per cycle; a call without a Ready poll_ready is recorded / panics / runs under a real tower::limit::ConcurrencyLimit, rotating per case; corpus.protocol = drop-and-reconnect sequences in every mode). Real Endpoint::connect_with_connector[_lazy] + Buffer worker + Reconnect + hyper h2 client against a real tonic Server over tokio duplex pipes, paused clock. Non-trivial = at least one call and two steps. Distinct = distinct (kind, model expression).",
         json!({}),
     );
 }
 
 fn explore() {
     use Step::*;
-    let cases: Vec<(bool, u32, Net, Vec<Step>)> = vec![
-        (true, 0, Net::Dead, vec![CALL, CALL, Set(Net::Up), CALL]),
-        (false, 0, Net::Dead, vec![CALL]),
-        (false, 0, Net::Garbage, vec![CALL, Set(Net::Up), CALL]),
-        (true, 2, Net::Garbage, vec![Calls(3), CALL]),
-        (true, 0, Net::Up, vec![CALL, DropRacy, Calls(3), CALL]),
-    ];
-    for (lazy, lat, n0, h) in cases {
-        let o = run_blocking(lazy, lat, n0, &h);
-        println!(
-            "lazy={} lat={} net0={:?} hist={:?}\n   eager={:?}\n   calls={:?}\n   attempts={} panics={} oracle={:?}",
-            lazy, lat, n0, h, o.eager, o.calls, o.attempts, o.panics, oracle(lazy, n0, &h, &o)
-        );
+    for mode in [Mode::Record, Mode::Panic, Mode::Limit] {
+        for prl in [0, 2] {
+            for lazy in [true, false] {
+                let h = vec![CALL, Drop, CALL, Set(Net::Down(3)), Drop, CALL, Set(Net::Up), Calls(2)];
+                let o = run_blocking(lazy, 1, prl, mode, Net::Up, &h);
+                println!(
+                    "mode={:?} prl={} lazy={}\n   eager={:?}\n   calls={:?}\n   attempts={} misuse={} panics={} oracle={:?}",
+                    mode, prl, lazy, o.eager, o.calls, o.attempts, o.misuse, o.panics, oracle(lazy, Net::Up, &h, &o)
+                );
+            }
+        }
     }
 }
